@@ -11,7 +11,9 @@ CHECKS = {
     "C04": conn_checks.check_C04,
     "C05": conn_checks.check_C05,
     "C06": conn_checks.check_C06,
+    "C13": listen_checks.check_C13,
     "C14": listen_checks.check_C14,
+    "C15": listen_checks.check_C15,
 }
 
 
